@@ -86,7 +86,10 @@ func (c *FuncCtx) execIterator(st *State, call *ast.CallExpr, sel *ast.SelectorE
 	}
 	savedFrame := b.frame
 	b.frame = &frame{decl: c.decl, closure: true, parent: savedFrame}
-	for _, o := range c.execBlock(b, fl.Body.List) {
+	c.ghostStack = append(c.ghostStack, li.extra)
+	bodyOuts := c.execBlock(b, fl.Body.List)
+	c.ghostStack = c.ghostStack[:len(c.ghostStack)-1]
+	for _, o := range bodyOuts {
 		switch o.kind {
 		case oNext, oContinue:
 			o.st.frame = savedFrame
